@@ -107,8 +107,11 @@ _BASES = {"list": "list", "set": "set", "frozenset": "frozenset", "dict": "dict"
           "List": "list", "Set": "set", "FrozenSet": "frozenset", "Dict": "dict"}
 
 
+STRIP = ()     # module prefixes to drop (e.g. ("a.",) when reading module a through its stub)
+
+
 def _short(name):
-  for pre in ("builtins.", "typing.", "collections.abc."):
+  for pre in ("builtins.", "typing.", "collections.abc.") + tuple(STRIP):
     if name.startswith(pre):
       return name[len(pre):]
   return name
